@@ -319,6 +319,8 @@ type VerifNode struct {
 
 	// replication statuses ever created, to address updates from removed replications
 	statuses map[uint64][]*replicationStatus
+	// electCh: the reply channel each election of this process handed to its request goroutines (by term)
+	electCh map[uint64]chan rpcResponse
 
 	Panic string // class of the first panic, "" if none
 	Dead  bool
@@ -492,6 +494,12 @@ func (n *VerifNode) run(fn func()) {
 		}()
 		fn()
 		n.settle()
+		if n.R.state == Candidate && n.c.respCh != nil {
+			if n.electCh == nil {
+				n.electCh = map[uint64]chan rpcResponse{}
+			}
+			n.electCh[n.R.term] = n.c.respCh
+		}
 	}()
 	n.syncFSM()
 	n.checkViews()
@@ -968,6 +976,37 @@ func (n *VerifNode) VoteResult(from uint64, isErr bool, term, result uint64) {
 			err = errVerifDial
 		}
 		n.c.onVoteResult(rpcResponse{&voteResp{resp{term, rpcResult(result), nil}}, from, err})
+	})
+}
+
+// VoteResultVia delivers a vote reply the way the request goroutine of the election of term elect
+// does: into the channel that election handed out; then plays `case v := <-c.respCh` on the channel
+// the candidate listens to now. A reply of an older election is therefore seen only if the code
+// still listens to that election's channel.
+func (n *VerifNode) VoteResultVia(elect, from uint64, isErr bool, term, result uint64) {
+	n.run(func() {
+		if n.R.state != Candidate {
+			return
+		}
+		var err error
+		if isErr {
+			err = errVerifDial
+		}
+		if ch := n.electCh[elect]; ch != nil {
+			select {
+			case ch <- rpcResponse{&voteResp{resp{term, rpcResult(result), nil}}, from, err}:
+			default:
+			}
+		}
+		for n.R.state == Candidate {
+			select {
+			case v := <-n.c.respCh:
+				n.c.onVoteResult(v)
+				continue
+			default:
+			}
+			break
+		}
 	})
 }
 
